@@ -86,7 +86,8 @@ impl Case {
             "len": self.len, "cap": self.cap, "mode": self.mode,
             "timeout_ns": self.timeout,
             "peer": PEERS.iter().find(|s| s.0 == self.peer).map(|s| s.1),
-            "obtain": OBTAINS.get(self.obtain), "use": USES.get(self.use_),
+            "obtain": if self.scen == Scen::Chain { OBTAINS.get(self.obtain) } else { None },
+            "use": if self.scen == Scen::Chain { USES.get(self.use_) } else { None },
         })
     }
     pub fn from_json(v: &Value) -> Option<Case> {
